@@ -5,14 +5,19 @@ package props
 import (
 	"encoding/json"
 	"fmt"
+	"runtime"
+	"sync/atomic"
 	"testing"
 	"time"
+
+	"github.com/Trendyol/go-dcp/membership"
+	"github.com/Trendyol/go-dcp/models"
 
 	"pgregory.net/rapid"
 )
 
 func c12Weights() hWeights {
-	return hWeights{deliver: 40, ack: 26, save: 4, end: 22, absorbed: 12, reopenFail: scale(2, 6),
+	return hWeights{deliver: 40, ack: 26, save: 4, end: 22, rebalance: 3, absorbed: 12, reopenFail: scale(2, 6),
 		maxVb: scale(8, 16), minOps: 1, maxOps: scale(70, 200)}
 }
 
@@ -20,6 +25,7 @@ func TestC12_History(t *testing.T) {
 	known := isKnown("C01", sigF1)
 	rapid.Check(t, func(rt *rapid.T) {
 		sc := genHistory(rt, c12Weights())
+		sc.EndOnClose = rapid.Bool().Draw(rt, "endOnClose")
 		journal("C12", "c12hist", sc)
 		v, labels, _ := runHistory(&sc, known != nil, "C12")
 		journalDone()
@@ -164,6 +170,13 @@ func TestC12_Finite(t *testing.T) {
 }
 
 func init() {
+	registerReplay("c12stale", func(raw json.RawMessage) string {
+		var sc c12Stale
+		if err := json.Unmarshal(raw, &sc); err != nil {
+			return err.Error()
+		}
+		return c12ExecStale(sc)
+	})
 	registerReplay("c12finite", func(raw json.RawMessage) string {
 		var sc c12Finite
 		if err := json.Unmarshal(raw, &sc); err != nil {
@@ -171,4 +184,92 @@ func init() {
 		}
 		return c12ExecFinite(sc)
 	})
+}
+
+// ---- stress: a rebalance whose CloseStream calls are confirmed with STREAM_END(closed) (as a real node does) leaves
+// two finish signals behind (end events + Close); afterwards the client must still stop when every vBucket ends.
+// Which goroutine runs first is not owned by the harness: many rounds under scheduling pressure.
+
+type c12Stale struct {
+	Rounds   int `json:"rounds"`
+	Spinners int `json:"spinners"`
+}
+
+func c12ExecStale(sc c12Stale) string {
+	var stop atomic.Bool
+	for i := 0; i < sc.Spinners; i++ {
+		go func() {
+			for !stop.Load() {
+				runtime.Gosched()
+			}
+		}()
+	}
+	defer stop.Store(true)
+	for r := 0; r < sc.Rounds; r++ {
+		h := &hScenario{NumVb: 8, Lo: 0, Hi: 1, EndOnClose: true}
+		s := newSession(h, "C12")
+		s.cfg.Dcp.Group.Membership.Type = membership.DynamicMembershipType // zero delay
+		s.open()
+		for k := 0; k < 1+r%3; k++ {
+			are := 0
+			for _, n := range s.hand.names() {
+				if n == "ARE" {
+					are++
+				}
+			}
+			s.st.Rebalance()
+			dl := time.Now().Add(20 * time.Second)
+			for {
+				n := 0
+				for _, x := range s.hand.names() {
+					if x == "ARE" {
+						n++
+					}
+				}
+				if n > are {
+					break
+				}
+				if time.Now().After(dl) {
+					return fmt.Sprintf("round %d: no reopen", r)
+				}
+				runtime.Gosched()
+			}
+		}
+		if stopChClosed(s.stopCh) {
+			return fmt.Sprintf("round %d: the client stopped after a rebalance", r)
+		}
+		// every vBucket ends for good
+		for v := 0; v <= 1; v++ {
+			s.cl.observer(uint16(v)).End(models.DcpStreamEnd{VbID: uint16(v)}, nil)
+		}
+		dl := time.Now().Add(3 * time.Second)
+		for !stopChClosed(s.stopCh) {
+			if time.Now().After(dl) {
+				return fmt.Sprintf("round %d: every assigned vBucket stream ended for good after %d rebalance(s) confirmed by stream ends, but the client did not stop", r, 1+r%3)
+			}
+			time.Sleep(100 * time.Microsecond)
+		}
+		within(5*time.Second, func() { s.st.Close(false) })
+	}
+	return ""
+}
+
+// stress + regression of the repaired defect stale_second_finish_token
+func TestC12_StaleToken(t *testing.T) {
+	sc := c12Stale{Rounds: scale(1500, 15000), Spinners: 8}
+	if d := c12ExecStale(sc); d != "" {
+		violation(t, "C12", "c12stale", sc, "%s", d)
+	}
+	recordEnum("C12", int64(sc.Rounds), 2, map[string]int64{"stale_token_stress_rounds": int64(sc.Rounds)})
+}
+
+func TestC12_StaleTokenProbe(t *testing.T) {
+	if testing.Short() {
+		t.Skip()
+	}
+	for _, sp := range []int{0, 8, 32} {
+		t0 := time.Now()
+		d := c12ExecStale(c12Stale{Rounds: 3000, Spinners: sp})
+		t.Logf("spinners=%d: %v in %v", sp, d, time.Since(t0))
+	}
 }
